@@ -80,7 +80,9 @@ def run_history(h, res):
                 z = x + y if st['fn'] == '+' else (x - y if st['fn'] == '-' else x * y)
                 z2 = y + x if st['fn'] == '+' else (y - x if st['fn'] == '-' else y * x)
                 st['_prop'] = (xin, yin, lib.status3(z)[2], lib.status3(z2)[2])
-                st['_unary'] = (xin, lib.status3(-x)[2], lib.status3(+x)[2], lib.status3(abs(x))[2])
+                st['_unary'] = (xin, lib.status3(-x)[2], lib.status3(+x)[2], lib.status3(abs(x))[2],
+                                # the same operations through NumPy, and multiplication / division by a power of two
+                                lib.status3(np.negative(x))[2], lib.status3(np.abs(x))[2], lib.status3(x << 1)[2], lib.status3(x >> 1)[2])
                 obs.append(None); msteps.append(None)
         except Exception as e:
             res.fail(h, 'C04: step %r raised %s' % (st['op'], lib.exc_name(e)), got=str(e)[:200]); return
@@ -105,7 +107,7 @@ def compare(h, req_obs, out, res):
             if (xin or yin) and not (zin and z2in):
                 res.fail(h, 'C04: result of arithmetic does not carry the inaccuracy flag of an operand', expected=True, got=(zin, z2in)); return
             if un[0] and not all(un[1:]):
-                res.fail(h, 'C04: result of unary arithmetic (-x, +x, abs(x)) does not carry the inaccuracy flag of its operand', expected=True, got=un[1:]); return
+                res.fail(h, 'C04: result of unary arithmetic (-x, +x, abs(x), np.negative, np.abs, x << 1, x >> 1) does not carry the inaccuracy flag of its operand', expected=True, got=un[1:]); return
             continue
         (mo, mu, mi, mx), mev = trace[ti]; ti += 1
         if (mo, mu, mi) != (False, False, False): any_flag = True
